@@ -134,12 +134,13 @@ func (s *Server) addCloser(f func()) {
 }
 
 type action struct {
-	reply []byte // nil = no reply
-	kind  string // ok... | silent | close | rst | half | garbage | http
-	http  int
-	delay time.Duration
-	ql    *QueryLog
-	fin   bool // close the stream connection after the reply
+	reply  []byte // nil = no reply
+	kind   string // ok... | silent | close | rst | half | garbage | http
+	http   int
+	delay  time.Duration
+	ql     *QueryLog
+	fin    bool // close the stream connection after the reply
+	stream bool // DoH: the header is flushed before the body (no Content-Length: chunked / length unknown), body in two pieces
 }
 
 // handle decodes a query, decides what to do and logs it.
@@ -184,7 +185,7 @@ func (s *Server) decide(transport string, conn int64, raw []byte) *action {
 		}
 	}
 	ql.Kind = d.Kind
-	a := &action{kind: d.Kind, http: d.HTTP, delay: time.Duration(d.Delay) * time.Millisecond, ql: ql, fin: d.Fin}
+	a := &action{kind: d.Kind, http: d.HTTP, delay: time.Duration(d.Delay) * time.Millisecond, ql: ql, fin: d.Fin, stream: d.Stream}
 	switch d.Kind {
 	case "silent", "close", "rst", "http":
 		return a
@@ -471,6 +472,14 @@ func (s *Server) httpHandler(transport string) http.Handler {
 		w.Header().Set("Content-Type", "application/dns-message")
 		s.sent(a)
 		w.WriteHeader(200)
+		if f, ok := w.(http.Flusher); ok && a.stream {
+			f.Flush()
+			half := len(a.reply) / 2
+			w.Write(a.reply[:half])
+			f.Flush()
+			w.Write(a.reply[half:])
+			return
+		}
 		w.Write(a.reply)
 	})
 }
